@@ -179,7 +179,7 @@ def replay_concrete(fname, x):
         probs.append("width %d" % len(f))
     if not isinstance(back, float):
         probs.append("parsed back as %s" % type(back).__name__)
-    elif abs(back - x) > tol * (1 + 1e-9):
+    elif abs(back - x) > tol * (1 + 1e-9) + 4 * np.spacing(abs(x)):          # (the decimal field is parsed to the nearest double: a few units in the last place of slack)
         probs.append("error %.3g > %.3g" % (abs(back - x), tol))
     return dict(input=x, field=f, parsed=repr(back), fails=bool(probs), problems=probs)
 
@@ -237,6 +237,28 @@ def cards_bounded(seed, n_it):
                 if got2 is None or len(got2) != 1 or not _same(fields, got2[0], 1e-12):
                     return ev, dict(what="fixed-field and comma-separated forms of the same card are read differently", fields=[str(x) for x in fields],
                                     got=None if got2 is None else [str(x) for x in got2[0]])
+    return ev, None
+
+
+def special_values_bounded(seed, quick):
+    """bounded: the three formatters on the REAL code for values a decade-wise symbolic run treats through generic paths only - whole numbers of 1..18 digits, k x 10^e,
+    values that round up to the next power of ten at the field's precision - both signs: exact width, parsed back as a float, within half a unit of the last place the
+    best rendering of that width affords (the four obligations, evaluated natively by replay_concrete)"""
+    rng = np.random.RandomState(seed + 12)
+    ev = 0
+    vals = []
+    for nd in range(1, 19):
+        vals += [float(10 ** (nd - 1)), float(10 ** nd - 1), float(int("123456789123456789"[:nd])), float(rng.randint(10 ** (nd - 1), 10 ** nd))]
+    for e in list(range(-20, 21)) + [-150, -99, 99, 150, 300]:
+        for m in (1.0, 2.5, 9.0, 9.9999996, 9.99999999999999, 0.9999996, 0.999999999999999, 0.99999994, 0.9999999999999994):
+            vals.append(m * 10.0 ** e)
+    for fname in FUNCS:
+        for x in vals:
+            for sx in (x, -x):
+                ev += 1
+                r = replay_concrete(fname, sx)
+                if r["fails"]:
+                    return ev, dict(r, function=fname, what="%s(%r): %s" % (fname, sx, "; ".join(r.get("problems", [])) or r.get("what")))
     return ev, None
 
 
@@ -313,6 +335,10 @@ def run(tier, seed):
                 v.status = "proved"
                 v.detail = dict(v.detail, note="all failing inputs of this decade lie inside a recorded known-finding region; outside it the obligations hold")
     run.add_verdicts(vs)
+    evs, cfs = report.guarded(run, special_values_bounded, seed, tier == "quick")
+    run.bounded.append(dict(name="float: format_float8 / format_float16 / format_double16 on whole numbers of 1..18 digits, k x 10^e and values rounding up to the next power of ten, "
+                                 "both signs: width, parsed back, accuracy (real code, native evaluation of the four obligations)", evaluations=evs, failures=0 if cfs is None else 1,
+                            label="bounded (never counted as proved)"))
     ev, cf = report.guarded(run, cards_bounded, seed, 40 if tier == "quick" else 600)
     run.bounded.append(dict(name="float: cards of 1..60 fields (ints, floats, strings, blanks, blank runs covering a continuation line) through wtcard8/16/16d -> rdcards; fixed vs "
                                  "comma-separated form", evaluations=ev, failures=0 if cf is None else 1, label="bounded (never counted as proved)"))
@@ -322,6 +348,8 @@ def run(tier, seed):
         run.violation("%s[%s, decade 1e%d]::%s" % (f["fname"], "negative" if f["neg"] else "positive", f["e"], f["ob"]),
                       "formatter obligation fails: %s (field %r)" % (f["ob"], f.get("field")),
                       dict(failing=unexpected[:10], concrete=conc), concrete=bool(conc and conc.get("fails")))
+    elif cfs is not None:
+        run.violation("bounded:special values:" + cfs["what"][:80], cfs["what"], dict(concrete=cfs), concrete=True)
     elif cf is not None:
         run.violation("bounded:cards", cf["what"], dict(concrete=cf), concrete=True)
     return run.finish()
